@@ -48,7 +48,7 @@ func checkJ1(c *Ctx, jr *joinRoles) {
 			P:        p,
 			IsSource: func(rs *RecvSite) bool { return p.chanRole(rs.Chan) == "field:opts.Input" },
 			SinkInstr: func(fr *Frame, in ssa.Instruction) (bool, ssa.Value) {
-				if src, ok := p.ingestOf(in); ok {
+				if src, ok := p.ingestOfFr(fr, in); ok {
 					return sinkOf(fr, in, src, true)
 				}
 				if v, ok := p.emitInstr(in); ok {
